@@ -496,13 +496,16 @@ def run_interrupted(case, ctx):
 	interrupted = False
 	try:
 		omp_set_num_threads(case['threads'])
-		signal.setitimer(signal.ITIMER_REAL, case['delay_ms'] / 1000.0)
 		try:
-			for _ in range(50):
-				jaccarddist_matrix(qs, refs, out=out)
+			try:
+				signal.setitimer(signal.ITIMER_REAL, case['delay_ms'] / 1000.0)
+				for _ in range(50):
+					jaccarddist_matrix(qs, refs, out=out)
+			finally:
+				signal.setitimer(signal.ITIMER_REAL, 0)
 		except _Interrupt:
+			# wherever the handler fired (inside the call, between two calls, or while the timer was being cancelled)
 			interrupted = True
-		finally:
 			signal.setitimer(signal.ITIMER_REAL, 0)
 		try:
 			res = jaccarddist_matrix(small_q, refs, out=out)
